@@ -276,6 +276,14 @@ def check_ops(case, ctx):
             if x is not None:
                 unit_clause(ctx, r, x)
                 ctx.le("normalised sum/difference", np.abs(x - ref / np.linalg.norm(ref)).max(), 1e-14, route=r)
+    # sums and differences that are no rotation: operands that cancel exactly (q - q, q + (-q): the zero vector), an operand with a non-finite
+    # entry, an operand that is a stack - refused, never wrapped as a Quaternion holding NaN or the wrong shape
+    pa = np.array(np.asarray(P), float)
+    bad_ops = (("q - q (the same object)", lambda: P - P), ("q - (an equal quaternion)", lambda: P - ahrs.Quaternion(pa.copy(), versor=False)), ("q + (-q) as an array", lambda: P + (-pa)),
+               ("q + (operand with NaN)", lambda: P + np.array([np.nan, q[1], q[2], q[3]])), ("q - (operand with inf)", lambda: P - np.array([q[0], np.inf, q[2], q[3]])),
+               ("q + (a one-row stack)", lambda: P + q.copy()[None]), ("q - (a two-row stack)", lambda: P - np.array([q, p])))
+    for lab, fn in bad_ops:
+        must_reject(ctx, "Quaternion.__sub__" if " - " in lab else "Quaternion.__add__", fn, {"kind": lab})
     n = int(case.p["n"])
     r = "random_attitudes"
     for rep, shape in (("quaternion", (n, 4) if n > 1 else (4,)), ("rotmat", (n, 3, 3) if n > 1 else (3, 3))):
